@@ -1,4 +1,374 @@
-import TWV.Model.Search
+import TWV.Lemmas.Search
+
+/-!
+# C10 — the three sorted-array scans return the specified indices
+
+"For a strictly increasing array and a non-decreasing list of query values, the search returns for
+each query the index of the largest element `≤` it (`lower`), of the smallest element `≥` it
+(`higher`), or of the nearest element with ties resolved to the lower one (`closest`).  Queries
+outside the array's range yield the first / last index, or `-1` / `len(x)` for the two one-sided
+variants when filling is switched off."
+
+Model: `TWV/Model/Search.lean` (`findLower`, `findHigher`, `findClosest`, dispatcher `find`).
+Helper lemmas: `TWV/Lemmas/Search.lean`.
+-/
+
 namespace TWV.C10
-theorem placeholder : True := trivial
+open TWV TWV.Search
+
+variable {K : Type} [Field K] [LinearOrder K] [IsStrictOrderedRing K]
+
+-- every statement is made for an arbitrary linearly ordered field, also where the proof only
+-- needs the order
+set_option linter.unusedSectionVars false
+
+/-! ## Specifications -/
+
+/-- index of the largest element `≤ t`  =  (number of elements `≤ t`) - 1;
+the fill value if there is none -/
+def lowerSpec (fill : Bool) (x : List K) (t : K) : ℤ :=
+  if x.countP (· ≤ t) = 0 then (if fill then 0 else -1) else (x.countP (· ≤ t) : ℤ) - 1
+
+/-- index of the smallest element `≥ t` = number of elements `< t`;
+the fill value if there is none -/
+def higherSpec (fill : Bool) (x : List K) (t : K) : ℤ :=
+  if x.countP (· < t) = x.length then (if fill then (x.length : ℤ) - 1 else x.length)
+  else (x.countP (· < t) : ℤ)
+
+/-- `i` is the index of the element nearest to `t`, the lower one in case of a tie -/
+def IsClosest (x : List K) (t : K) (i : ℕ) : Prop :=
+  ∃ h : i < x.length, (∀ j (hj : j < x.length), |x[i] - t| ≤ |x[j] - t|) ∧
+                      (∀ j (hj : j < i), |x[i] - t| < |x[j]'(by omega) - t|)
+
+/-- the nearest-element index is unique, so `IsClosest` determines the output -/
+theorem IsClosest.unique {x : List K} {t : K} {i j : ℕ} (hi : IsClosest x t i)
+    (hj : IsClosest x t j) : i = j :=
+  Nearest.unique (x := x) (t := t) hi hj
+
+/-! ## The three scans meet their specifications -/
+
+theorem findLower_spec (fill : Bool) (x q : List K) (hx : x.Pairwise (· < ·))
+    (hq : q.Pairwise (· ≤ ·)) (hx0 : x ≠ []) (hq0 : q ≠ []) :
+    findLower fill x q = .ok (q.map (lowerSpec fill x)) := by
+  obtain ⟨x0, xs, rfl⟩ := List.exists_cons_of_ne_nil hx0
+  obtain ⟨q0, qs, rfl⟩ := List.exists_cons_of_ne_nil hq0
+  have hx' := List.pairwise_cons.mp hx
+  simp only [findLower]
+  congr 1
+  apply lowerPhase1_glue fill x0 (lowerSpec fill (x0 :: xs)) (fun qs => lowerPhase2 0 xs qs)
+  · intro t ht
+    have hz : (x0 :: xs).countP (· ≤ t) = 0 := by
+      rw [List.countP_eq_zero]
+      intro a ha
+      simp only [decide_eq_true_eq, not_le]
+      rcases List.mem_cons.mp ha with rfl | ha
+      · exact ht
+      · exact ht.trans (hx'.1 a ha)
+    simp [lowerSpec, hz]
+  · intro qs hqs hge
+    show lowerPhase2 0 xs qs = _
+    rw [lowerPhase2_spec qs 0 xs hx'.2 hqs]
+    apply List.map_congr_left
+    intro t ht
+    simp [lowerSpec, hge t ht]
+  · exact hq
+
+theorem findHigher_spec (fill : Bool) (x q : List K) (hx : x.Pairwise (· < ·))
+    (hq : q.Pairwise (· ≤ ·)) (hx0 : x ≠ []) (hq0 : q ≠ []) :
+    findHigher fill x q = .ok (q.map (higherSpec fill x)) := by
+  obtain ⟨x0, xs, rfl⟩ := List.exists_cons_of_ne_nil hx0
+  obtain ⟨q0, qs, rfl⟩ := List.exists_cons_of_ne_nil hq0
+  have hx' := List.pairwise_cons.mp hx
+  simp only [findHigher]
+  congr 1
+  apply higherPhase1_glue x0 (higherSpec fill (x0 :: xs))
+    (fun qs => higherPhase2 fill (xs.length + 1) 0 xs qs)
+  · intro t ht
+    have hz : (x0 :: xs).countP (· < t) = 0 := by
+      rw [List.countP_eq_zero]
+      intro a ha
+      simp only [decide_eq_true_eq, not_lt]
+      rcases List.mem_cons.mp ha with rfl | ha
+      · exact ht
+      · exact ht.trans (hx'.1 a ha).le
+    simp [higherSpec, hz]
+  · intro qs hqs hgt
+    show higherPhase2 fill (xs.length + 1) 0 xs qs = _
+    rw [higherPhase2_spec fill (xs.length + 1) qs 0 xs hx'.2 hqs]
+    apply List.map_congr_left
+    intro t ht
+    have h0 : x0 < t := hgt t ht
+    simp only [higherSpec, higherVal, List.countP_cons, h0, decide_true, if_true,
+      List.length_cons, Nat.add_right_cancel_iff]
+    split <;> cases fill <;> simp
+  · exact hq
+
+theorem findClosest_spec (x q : List K) (hx : x.Pairwise (· < ·)) (hq : q.Pairwise (· ≤ ·))
+    (hx0 : x ≠ []) (hq0 : q ≠ []) :
+    ∃ r : List ℤ, findClosest x q = .ok r ∧ r.length = q.length ∧
+      ∀ k (hk : k < q.length) (hr : k < r.length),
+        ∃ i : ℕ, r[k] = (i : ℤ) ∧ IsClosest x q[k] i := by
+  obtain ⟨x0, xs, rfl⟩ := List.exists_cons_of_ne_nil hx0
+  refine ⟨q.map (closestVal x0 xs), findClosest_eq_map x0 xs q hq hq0, by simp, ?_⟩
+  intro k hk hr
+  rw [List.getElem_map]
+  exact closestVal_nearest hx q[k]
+
+/-! ## What the two one-sided specifications mean -/
+
+/-- `lowerSpec` is the index of the largest element `≤ t`; if there is no such element
+(`t` below the whole array) it is `0` with filling and `-1` without -/
+theorem lowerSpec_char (fill : Bool) (x : List K) (hx : x.Pairwise (· < ·)) (t : K) :
+    ((∃ a ∈ x, a ≤ t) →
+        ∃ i : ℕ, ∃ _h : i < x.length, lowerSpec fill x t = (i : ℤ) ∧ x[i] ≤ t ∧
+          ∀ j (_hj : j < x.length), x[j] ≤ t → j ≤ i) ∧
+    ((∀ a ∈ x, t < a) → lowerSpec fill x t = if fill then 0 else -1) := by
+  have key := getElem_iff_lt_countP (downClosed_le t) x hx
+  constructor
+  · rintro ⟨a, ha, hat⟩
+    have hpos : 0 < x.countP (· ≤ t) := List.countP_pos_iff.mpr ⟨a, ha, by simpa using hat⟩
+    have hle : x.countP (· ≤ t) ≤ x.length := List.countP_le_length
+    refine ⟨x.countP (· ≤ t) - 1, by omega, ?_, ?_, ?_⟩
+    · unfold lowerSpec
+      rw [if_neg (by omega)]
+      omega
+    · have := (key (x.countP (· ≤ t) - 1) (by omega)).mpr (by omega)
+      simpa using this
+    · intro j hj hjt
+      have := (key j hj).mp (by simpa using hjt)
+      omega
+  · intro h
+    have hz : x.countP (· ≤ t) = 0 := by
+      rw [List.countP_eq_zero]
+      intro a ha
+      simpa using h a ha
+    simp [lowerSpec, hz]
+
+/-- `higherSpec` is the index of the smallest element `≥ t`; if there is no such element
+(`t` above the whole array) it is `len - 1` with filling and `len` without -/
+theorem higherSpec_char (fill : Bool) (x : List K) (hx : x.Pairwise (· < ·)) (t : K) :
+    ((∃ a ∈ x, t ≤ a) →
+        ∃ i : ℕ, ∃ _h : i < x.length, higherSpec fill x t = (i : ℤ) ∧ t ≤ x[i] ∧
+          ∀ j (_hj : j < x.length), t ≤ x[j] → i ≤ j) ∧
+    ((∀ a ∈ x, a < t) →
+        higherSpec fill x t = if fill then (x.length : ℤ) - 1 else x.length) := by
+  have key := getElem_iff_lt_countP (downClosed_lt t) x hx
+  constructor
+  · rintro ⟨a, ha, hat⟩
+    have hle : x.countP (· < t) ≤ x.length := List.countP_le_length
+    have hne : x.countP (· < t) ≠ x.length := by
+      intro h
+      have := List.countP_eq_length.mp h a ha
+      simp only [decide_eq_true_eq] at this
+      exact absurd this (not_lt.mpr hat)
+    have hlt : x.countP (· < t) < x.length := lt_of_le_of_ne hle hne
+    refine ⟨x.countP (· < t), hlt, ?_, ?_, ?_⟩
+    · unfold higherSpec
+      rw [if_neg hne]
+    · have := (key (x.countP (· < t)) hlt).not.mpr (lt_irrefl _)
+      simpa using this
+    · intro j hj hjt
+      have := (key j hj).not.mp (by simpa using hjt)
+      omega
+  · intro h
+    have hz : x.countP (· < t) = x.length := by
+      rw [List.countP_eq_length]
+      intro a ha
+      simpa using h a ha
+    simp [higherSpec, hz]
+
+/-! ## Queries outside the range of the array -/
+
+private theorem head_le_of_mem {x : List K} (hx : x.Pairwise (· < ·)) (hx0 : x ≠ []) {a : K}
+    (ha : a ∈ x) : x.head hx0 ≤ a := by
+  obtain ⟨x0, xs, rfl⟩ := List.exists_cons_of_ne_nil hx0
+  rcases List.mem_cons.mp ha with rfl | ha
+  · exact le_rfl
+  · exact ((List.pairwise_cons.mp hx).1 a ha).le
+
+private theorem le_getLast_of_mem {x : List K} (hx : x.Pairwise (· < ·)) (hx0 : x ≠ []) {a : K}
+    (ha : a ∈ x) : a ≤ x.getLast hx0 := by
+  obtain ⟨j, hj, rfl⟩ := List.getElem_of_mem ha
+  rw [List.getLast_eq_getElem]
+  exact getElem_le_of_le hx _ (by omega)
+
+/-- `lower`, query below the first element: `0` with filling, `-1` without -/
+theorem lowerSpec_below (fill : Bool) (x : List K) (hx : x.Pairwise (· < ·)) (hx0 : x ≠ [])
+    (t : K) (ht : t < x.head hx0) : lowerSpec fill x t = if fill then 0 else -1 :=
+  (lowerSpec_char fill x hx t).2 fun _ ha => lt_of_lt_of_le ht (head_le_of_mem hx hx0 ha)
+
+/-- `lower`, query at or above the last element: the last index -/
+theorem lowerSpec_above (fill : Bool) (x : List K) (hx : x.Pairwise (· < ·)) (hx0 : x ≠ [])
+    (t : K) (ht : x.getLast hx0 ≤ t) : lowerSpec fill x t = (x.length : ℤ) - 1 := by
+  have hz : x.countP (· ≤ t) = x.length := by
+    rw [List.countP_eq_length]
+    intro a ha
+    simpa using (le_getLast_of_mem hx hx0 ha).trans ht
+  have hl : x.length ≠ 0 := by simpa using hx0
+  simp [lowerSpec, hz, hl]
+
+/-- `higher`, query at or below the first element: index `0` -/
+theorem higherSpec_below (fill : Bool) (x : List K) (hx : x.Pairwise (· < ·)) (hx0 : x ≠ [])
+    (t : K) (ht : t ≤ x.head hx0) : higherSpec fill x t = 0 := by
+  have hz : x.countP (· < t) = 0 := by
+    rw [List.countP_eq_zero]
+    intro a ha
+    simpa using ht.trans (head_le_of_mem hx hx0 ha)
+  have hl : 0 ≠ x.length := by
+    intro h; exact hx0 (List.eq_nil_of_length_eq_zero h.symm)
+  simp [higherSpec, hz, hl]
+
+/-- `higher`, query above the last element: `len - 1` with filling, `len` without -/
+theorem higherSpec_above (fill : Bool) (x : List K) (hx : x.Pairwise (· < ·)) (hx0 : x ≠ [])
+    (t : K) (ht : x.getLast hx0 < t) :
+    higherSpec fill x t = if fill then (x.length : ℤ) - 1 else x.length :=
+  (higherSpec_char fill x hx t).2 fun _ ha => lt_of_le_of_lt (le_getLast_of_mem hx hx0 ha) ht
+
+/-- `closest`, query at or below the first element: index `0` -/
+theorem isClosest_below (x : List K) (hx : x.Pairwise (· < ·)) (hx0 : x ≠ []) (t : K)
+    (ht : t ≤ x.head hx0) : IsClosest x t 0 :=
+  isClosest_zero_of_le_head hx (List.length_pos_iff.mpr hx0)
+    (by rw [List.head_eq_getElem] at ht; exact ht)
+
+/-- `closest`, query at or above the last element: the last index -/
+theorem isClosest_above (x : List K) (hx : x.Pairwise (· < ·)) (hx0 : x ≠ []) (t : K)
+    (ht : x.getLast hx0 ≤ t) : IsClosest x t (x.length - 1) :=
+  isClosest_last_of_last_le hx (List.length_pos_iff.mpr hx0)
+    (by rw [List.getLast_eq_getElem] at ht; exact ht)
+
+/-- the out-of-range behaviour of the three scans, stated on their outputs -/
+theorem find_out_of_range (fill : Bool) (x q : List K) (hx : x.Pairwise (· < ·))
+    (hq : q.Pairwise (· ≤ ·)) (hx0 : x ≠ []) (hq0 : q ≠ []) :
+    ∃ rl rh rc : List ℤ,
+      findLower fill x q = .ok rl ∧ findHigher fill x q = .ok rh ∧ findClosest x q = .ok rc ∧
+      rl.length = q.length ∧ rh.length = q.length ∧ rc.length = q.length ∧
+      ∀ k (hk : k < q.length) (h1 : k < rl.length) (h2 : k < rh.length) (h3 : k < rc.length),
+        (q[k] < x.head hx0 → rl[k] = if fill then 0 else -1) ∧
+        (x.getLast hx0 ≤ q[k] → rl[k] = (x.length : ℤ) - 1) ∧
+        (q[k] ≤ x.head hx0 → rh[k] = 0) ∧
+        (x.getLast hx0 < q[k] → rh[k] = if fill then (x.length : ℤ) - 1 else x.length) ∧
+        (q[k] ≤ x.head hx0 → rc[k] = 0) ∧
+        (x.getLast hx0 ≤ q[k] → rc[k] = (x.length : ℤ) - 1) := by
+  obtain ⟨rc, hrc, hlen, hcl⟩ := findClosest_spec x q hx hq hx0 hq0
+  refine ⟨_, _, rc, findLower_spec fill x q hx hq hx0 hq0, findHigher_spec fill x q hx hq hx0 hq0,
+    hrc, by simp, by simp, hlen, ?_⟩
+  intro k hk h1 h2 h3
+  obtain ⟨i, hi, hic⟩ := hcl k hk h3
+  have hpos : 0 < x.length := List.length_pos_iff.mpr hx0
+  refine ⟨?_, ?_, ?_, ?_, ?_, ?_⟩
+  · intro h; rw [List.getElem_map]; exact lowerSpec_below fill x hx hx0 _ h
+  · intro h; rw [List.getElem_map]; exact lowerSpec_above fill x hx hx0 _ h
+  · intro h; rw [List.getElem_map]; exact higherSpec_below fill x hx hx0 _ h
+  · intro h; rw [List.getElem_map]; exact higherSpec_above fill x hx hx0 _ h
+  · intro h
+    rw [hi, hic.unique (isClosest_below x hx hx0 _ h)]; rfl
+  · intro h
+    rw [hi, hic.unique (isClosest_above x hx hx0 _ h)]
+    push_cast [Nat.cast_sub hpos]; rfl
+
+/-! ## Dispatcher -/
+
+theorem find_lower (fill : Bool) (x q : List K) :
+    find "lower" fill x q = findLower fill x q := rfl
+
+theorem find_higher (fill : Bool) (x q : List K) :
+    find "higher" fill x q = findHigher fill x q := rfl
+
+theorem find_closest (fill : Bool) (x q : List K) :
+    find "closest" fill x q = findClosest x q := rfl
+
+theorem find_unknown (strategy : String) (fill : Bool) (x q : List K)
+    (h1 : strategy ≠ "closest") (h2 : strategy ≠ "lower") (h3 : strategy ≠ "higher") :
+    find strategy fill x q = .error .valueError := by
+  have : Strategy.ofString? strategy = none := by
+    unfold Strategy.ofString?
+    split <;> first | rfl | contradiction
+  simp [find, this]
+
+/-! ## Empty inputs: Python's `next(...)` raises `StopIteration` -/
+
+theorem findLower_empty_x (fill : Bool) (q : List K) :
+    findLower fill ([] : List K) q = .error .stopIteration := rfl
+
+theorem findLower_empty_q (fill : Bool) (x : List K) :
+    findLower fill x ([] : List K) = .error .stopIteration := by cases x <;> rfl
+
+theorem findHigher_empty_x (fill : Bool) (q : List K) :
+    findHigher fill ([] : List K) q = .error .stopIteration := rfl
+
+theorem findHigher_empty_q (fill : Bool) (x : List K) :
+    findHigher fill x ([] : List K) = .error .stopIteration := by cases x <;> rfl
+
+theorem findClosest_empty_x (q : List K) :
+    findClosest ([] : List K) q = .error .stopIteration := rfl
+
+theorem findClosest_empty_q (x : List K) :
+    findClosest x ([] : List K) = .error .stopIteration := by cases x <;> rfl
+
+/-! ## Non-vacuity: the scans and the specifications evaluated on a concrete instance
+
+array `0, 1, 2, 4` over `ℚ`; the queries lie below the range (`-1`), on elements (`0, 1, 4`),
+strictly inside (`1/2, 3`), on the mid-point tie between `1` and `2` (`3/2`) and above the
+range (`5`). -/
+
+section Examples
+
+private def xs : List ℚ := [0, 1, 2, 4]
+private def qs : List ℚ := [-1, 0, 1/2, 1, 3/2, 3, 4, 5]
+
+/-- the hypotheses of the specification theorems are satisfiable -/
+example : xs.Pairwise (· < ·) ∧ qs.Pairwise (· ≤ ·) ∧ xs ≠ [] ∧ qs ≠ [] :=
+  ⟨by norm_num [xs], by norm_num [qs], by simp [xs], by simp [qs]⟩
+
+example : findLower true xs qs = .ok [0, 0, 0, 1, 1, 2, 3, 3] := by
+  norm_num [xs, qs, findLower, lowerPhase1, lowerPhase2, advLower]
+example : findLower false xs qs = .ok [-1, 0, 0, 1, 1, 2, 3, 3] := by
+  norm_num [xs, qs, findLower, lowerPhase1, lowerPhase2, advLower]
+example : findHigher true xs qs = .ok [0, 0, 1, 1, 2, 3, 3, 3] := by
+  norm_num [xs, qs, findHigher, higherPhase1, higherPhase2, advHigher]
+example : findHigher false xs qs = .ok [0, 0, 1, 1, 2, 3, 3, 4] := by
+  norm_num [xs, qs, findHigher, higherPhase1, higherPhase2, advHigher]
+example : findClosest xs qs = .ok [0, 0, 0, 1, 1, 2, 3, 3] := by
+  norm_num [xs, qs, findClosest, higherPhase1, closestPhase2, advClosest]
+example : find "closest" true xs qs = .ok [0, 0, 0, 1, 1, 2, 3, 3] := by
+  norm_num [xs, qs, find_closest, findClosest, higherPhase1, closestPhase2, advClosest]
+
+/-- the specifications themselves give the same values -/
+example : qs.map (lowerSpec false xs) = [-1, 0, 0, 1, 1, 2, 3, 3] := by
+  norm_num [xs, qs, lowerSpec, List.countP_cons]
+example : qs.map (higherSpec false xs) = [0, 0, 1, 1, 2, 3, 3, 4] := by
+  norm_num [xs, qs, higherSpec, List.countP_cons]
+
+/-- the specification theorems apply to the instance -/
+example : findLower false xs qs = .ok (qs.map (lowerSpec false xs)) :=
+  findLower_spec false xs qs (by norm_num [xs]) (by norm_num [qs]) (by simp [xs]) (by simp [qs])
+
+/-- the mid-point tie `3/2` between `x[1] = 1` and `x[2] = 2` goes to the lower index ... -/
+example : IsClosest xs (3/2) 1 := by
+  refine ⟨by simp [xs], ?_, ?_⟩
+  · intro j hj
+    simp only [xs, List.length_cons, List.length_nil] at hj
+    interval_cases j <;> simp [xs] <;> norm_num [abs_of_nonneg, abs_of_neg]
+  · intro j hj
+    interval_cases j
+    simp [xs]
+    norm_num [abs_of_nonneg, abs_of_neg]
+
+/-- ... and not to the upper one, although `x[2]` is equally near -/
+example : ¬ IsClosest xs (3/2) 2 := by
+  rintro ⟨_, _, h2⟩
+  have := h2 1 (by norm_num)
+  simp [xs] at this
+  norm_num [abs_of_nonneg, abs_of_neg] at this
+
+/-- the sortedness of the queries is a genuine precondition: the array pointer never moves back,
+so an unsorted query list gets a wrong answer (`0` is at index `0`, the scan says `2`) -/
+example : findLower true ([0, 1, 2] : List ℚ) [2, 0] = .ok [2, 2] ∧
+    ([2, 0] : List ℚ).map (lowerSpec true [0, 1, 2]) = [2, 0] := by
+  constructor
+  · norm_num [findLower, lowerPhase1, lowerPhase2, advLower]
+  · norm_num [lowerSpec, List.countP_cons]
+
+end Examples
+
 end TWV.C10
